@@ -210,6 +210,75 @@ theorem sameRun {ord : List N → List N} (hord : ∀ l, (ord l).Perm l) (in0 ou
         rw [removeNodes_perm g (hord (deadEnds out0 g))]
         exact ih _
 
+/-! ## the port named by the literal loop is a sink of the graph it is met in -/
+
+/-- removing other units never gives a sink a successor -/
+theorem outPorts_removeNodes {g : Graph N} {dead : List N} {p : N} (hp : p ∈ g.outPorts) (hd : p ∉ dead) :
+    p ∈ (g.removeNodes dead).outPorts := by
+  simp only [Graph.outPorts, Graph.names, Graph.succs, Graph.removeNodes, List.mem_filter, List.mem_map,
+    List.isEmpty_iff, List.map_eq_nil_iff, List.filter_eq_nil_iff, List.filter_filter] at hp ⊢
+  obtain ⟨⟨n, hn, rfl⟩, hs⟩ := hp
+  refine ⟨⟨n, ⟨hn, by simp [hd]⟩, rfl⟩, ?_⟩
+  intro e he
+  have := hs e he
+  simp [this]
+
+/-- an error of the inner loop names the first original input port of the list; the elements before it have been
+removed, and it is still a sink of the graph it is met in -/
+theorem rmDeadEnds_error {in0 ps : List N} {g : Graph N} {e : LoadError N} (h : rmDeadEnds in0 ps g = .error e)
+    (hs : ∀ q ∈ ps, q ∈ g.outPorts) :
+    ∃ p pre post, e = .deadInput p ∧ ps = pre ++ p :: post ∧ p ∈ in0 ∧ (∀ q ∈ pre, q ∉ in0) ∧
+      p ∈ (g.removeNodes pre).outPorts := by
+  rw [rmDeadEnds_eq] at h
+  cases hf : ps.find? (fun u => decide (u ∈ in0)) with
+  | none => rw [hf] at h; cases h
+  | some p =>
+    rw [hf] at h
+    cases h
+    obtain ⟨hp, pre, post, hps, hpre⟩ := List.find?_eq_some_iff_append.1 hf
+    have hp' : p ∈ in0 := by simpa using hp
+    have hpre' : ∀ q ∈ pre, q ∉ in0 := fun q hq => by simpa using hpre q hq
+    refine ⟨p, pre, post, rfl, hps, hp', hpre', outPorts_removeNodes (hs p (by simp [hps])) ?_⟩
+    intro hin
+    exact hpre' p hin hp'
+
+/-- an error of the literal loop is raised by the inner loop of the round that starts with `stopGraph` -/
+theorem chkTerminalsP_error_round {ord : List N → List N} (hord : ∀ l, (ord l).Perm l) (in0 out0 : List N) :
+    ∀ (fuel : Nat) (g : Graph N) (e : LoadError N), chkTerminalsP ord in0 out0 fuel g = .error e →
+      rmDeadEnds in0 (ord (deadEnds out0 (stopGraph in0 out0 fuel g))) (stopGraph in0 out0 fuel g) = .error e := by
+  intro fuel
+  induction fuel with
+  | zero => intro g e h; cases h
+  | succ fuel ih =>
+    intro g e
+    simp only [chkTerminalsP, stopGraph]
+    change (if (deadEnds out0 g).isEmpty then .ok g else
+        match rmDeadEnds in0 (ord (deadEnds out0 g)) g with
+        | .error e => .error e
+        | .ok g' => chkTerminalsP ord in0 out0 fuel g') = Except.error e → _
+    by_cases he : (deadEnds out0 g).isEmpty
+    · simp only [he, if_true]; intro h; cases h
+    · simp only [he, Bool.false_eq_true, if_false]
+      by_cases hany : (deadEnds out0 g).any (fun u => decide (u ∈ in0)) = true
+      · simp only [hany, if_true]
+        cases hr : rmDeadEnds in0 (ord (deadEnds out0 g)) g with
+        | error e' => intro h; cases h; rfl
+        | ok g' =>
+          rw [rmDeadEnds_eq] at hr
+          obtain ⟨p, hp, hpi⟩ := List.any_eq_true.1 hany
+          cases hf : (ord (deadEnds out0 g)).find? (fun u => decide (u ∈ in0)) with
+          | some q => rw [hf] at hr; cases hr
+          | none =>
+            rw [List.find?_eq_none] at hf
+            exact absurd hpi (hf p ((hord _).mem_iff.2 hp))
+      · simp only [hany, Bool.false_eq_true, if_false]
+        have hnone : (ord (deadEnds out0 g)).find? (fun u => decide (u ∈ in0)) = none := by
+          rw [List.find?_eq_none]
+          intro x hx hxi
+          exact hany (List.any_eq_true.2 ⟨x, (hord _).mem_iff.1 hx, hxi⟩)
+        rw [rmDeadEnds_eq, hnone, removeNodes_perm g (hord (deadEnds out0 g))]
+        exact ih _ e
+
 theorem SameRun.agree {in0 out0 : List N} {sg : Graph N} {x y : Except (LoadError N) (Graph N)}
     (h : SameRun in0 out0 sg x y) : Agree SameCls x y := by
   cases h with
